@@ -16,6 +16,11 @@
     list K                                 -> list rec…      (insertion order)
     log K                                  -> log +rec -rec… (callback stream since the last `log`)
     hash <asn>                             -> 8 hex digits   (tommy_inthash_u32)
+    cmp <rec-words> <rec-words>            -> 0 | 1          (key_entry_cmp on two entries: 0 = equal)
+    fnew                                   -> ok             (a tommy_hashlin of its own, filed under CHOSEN hashes)
+    fadd H <rec-words>                     -> 0 | -2         (search with key_entry_cmp under hash H, insert if absent)
+    fget H <rec-words> | frm H <rec-words> -> 1 rec | 0      (tommy_hashlin_search / _remove under hash H; H = 8 hex digits)
+    fhl | fbuckets                         -> as hl / buckets
   rec = asn:ski:spki:src with ski/spki as minimal lowercase hex.
 -/
 import RtrModel.Spki
@@ -25,6 +30,10 @@ open Rtr Rtr.Proto
 
 structure St where
   tabs : Array SpkiTable := #[{}, {}, {}, {}]
+  fh : Hashlin SpkiRec := Hashlin.init
+
+def parseHash (s : String) : Option Nat :=
+  if s.length = 8 then hexToNat? s else none
 
 def rcStr (rc : SpkiRc) : String := toString rc.toInt
 
@@ -146,6 +155,29 @@ def step (s : St) (line : String) : St × String :=
       let o := " ".intercalate (T.log.map fun (a, r) => (if a then "+" else "-") ++ recStr r)
       ({ s with tabs := s.tabs.set! i { T with log := [] } }, ("log " ++ o).trimAscii.toString)
     | none => bad
+  | ["cmp", a1, a2, a3, a4, b1, b2, b3, b4] => match parseRec [a1, a2, a3, a4], parseRec [b1, b2, b3, b4] with
+    | some a, some b => (s, if SpkiTable.cmp a b then "0" else "1")
+    | _, _ => bad
+  | ["fnew"] => ({ s with fh := Hashlin.init }, "ok")
+  | ["fadd", h, r1, r2, r3, r4] => match parseHash h, parseRec [r1, r2, r3, r4] with
+    | some h, some r =>
+      if (s.fh.search (SpkiTable.cmp r) h).isSome then (s, rcStr .duplicate)
+      else ({ s with fh := s.fh.insert r h }, rcStr .success)
+    | _, _ => bad
+  | ["fget", h, r1, r2, r3, r4] => match parseHash h, parseRec [r1, r2, r3, r4] with
+    | some h, some r =>
+      match s.fh.search (SpkiTable.cmp r) h with
+      | some e => (s, "1 " ++ recStr e)
+      | none => (s, "0")
+    | _, _ => bad
+  | ["frm", h, r1, r2, r3, r4] => match parseHash h, parseRec [r1, r2, r3, r4] with
+    | some h, some r =>
+      match s.fh.remove (SpkiTable.cmp r) h with
+      | (fh', some e) => ({ s with fh := fh' }, "1 " ++ recStr e)
+      | (_, none) => (s, "0")
+    | _, _ => bad
+  | ["fhl"] => (s, hlStr s.fh)
+  | ["fbuckets"] => (s, bucketsStr s.fh)
   | ["hash", asn] => match parseAsn asn with
     | some a => (s, toHex 8 (inthash a))
     | none => bad
